@@ -174,6 +174,7 @@ def run(ctx):
                        "independent parse+hash; distinct = (config, op, outcome) and (damage kind, byte class, classification, cache) classes")
     for c in configs(ctx):
         F.run_config(ctx, PID, c)
+    F.run_recorded(ctx, PID, "random-damage", 40 if ctx.quick else 2000, 30 if ctx.quick else 50, OPS + ["open_sp", "init", "open_iter", "remove"], projects=("P",))
     byte_level(ctx)
     ctx.cov["binding_selftest"] = F.selftest(ctx, PID)
 
